@@ -12,4 +12,5 @@ Extraction "m.ml" xb_add xb_mul xb_div_eucl
   coeffFromHalfByte rejectNTTPoly rejectBoundedPoly sampleInBall
   MLDSA44 MLDSA65 MLDSA87 publicKeyLength secretKeyLength signatureLength
   keyGenInternal pkEncode skEncode pkDecode skDecode w1Encode
-  signInternal verifyInternal sign verify tinkSign tinkVerify computePrehash signPrehash.
+  signInternal verifyInternal sign verify tinkSign tinkVerify computePrehash signPrehash
+  compositeVerify compositeSignMldsaPart.
